@@ -9,7 +9,8 @@ from .vc import Verifier
 def main():
     modname = sys.argv[1]
     flt = sys.argv[2] if len(sys.argv) > 2 else ''
-    repo = '/repo'
+    import os
+    repo = os.environ.get('MUT_REPO', '/repo')
     vr = Verifier(repo, '/verif')
     mod = importlib.import_module(modname)
     vr.register(mod.CONTRACTS)
